@@ -18,9 +18,9 @@ var FaultKinds = []string{"error_string", "error_string_level2", "error_string_l
 const FaultPrelude = `local ARMED, KIND = ...
 local function fault(i)
   if i ~= ARMED then return false end
-  if KIND == 1 then error("boom" .. i)
-  elseif KIND == 2 then error("boom" .. i, 2)
-  elseif KIND == 3 then error("boom" .. i, 0)
+  if KIND == 1 then error("boom 100% %d %s %" .. i)
+  elseif KIND == 2 then error("boom %5.2f%%" .. i, 2)
+  elseif KIND == 3 then error("boom %v %!" .. i, 0)
   elseif KIND == 4 then error({site = i})
   elseif KIND == 5 then error(nil)
   elseif KIND == 6 then error(i + 0.5)
